@@ -25,7 +25,7 @@ from unyt.unit_object import Unit
 # ---- operand kinds ------------------------------------------------------------------------------------
 KINDS = ["same", "other", "diff", "dimless", "pct", "bscalar", "barray", "zero", "qlist", "empty", "qmixlist"]
 # (anchor unit, other unit of the same dimension, unit of a different dimension)
-DIM_TRIPLES_QUICK = [("m", "km", "s"), ("m", "cm", "erg"), ("g", "kg", "degree"), ("K", "R", "m")]
+DIM_TRIPLES_QUICK = [("m", "km", "s"), ("m", "cm", "erg"), ("g", "kg", "degree"), ("K", "R", "m"), ("A", "mA", "s"), ("G", "mG", "kg")]  # the last two: SI and Gaussian electromagnetic atoms (a conversion branch of their own)
 SHAPES = ["scalar", "array", "bcast"]
 
 VALS_A = [1.5, -2.25, 3.0]
